@@ -78,6 +78,26 @@ NestedDiffs(items) ==
                  ELSE {f \in [1..n -> UNION {Fates(j) : j \in 1..n}] : \A j \in 1..n : f[j] \in Fates(j)}
   IN {BuildSeq(n, ins, fate, mg) : ins \in [0..n -> InsChoices(NInsU, List)], fate \in FateFns, mg \in BOOLEAN}
 
+\* strings universe: multi-line strings over the lines "a\n", "b\n" and an unterminated last line "a"; all canonical
+\* well-formed line diffs incl. changes inside a line (a character at column 0, one before the line end, the missing
+\* line end added)
+LineA == <<97, 10>>
+LineB == <<98, 10>>
+LineU == <<97>>
+StrLinesU == SeqsUpTo({LineA, LineB}, MaxLen) \cup
+             (IF MaxLen = 0 THEN {} ELSE {Append(q, LineU) : q \in SeqsUpTo({LineA, LineB}, MaxLen - 1)})
+CharAdd(k, cp) == [op |-> "addrange", kt |-> "i", key |-> k, valuelist |-> Str(<<cp>>)]
+LineDiffs(ln) == IF ln[Len(ln)] = 10
+                 THEN {<<CharAdd(0, 88)>>, <<CharAdd(Len(ln) - 1, 33)>>}
+                 ELSE {<<CharAdd(0, 88)>>, <<CharAdd(Len(ln), 10)>>}
+SInsU == IF NIns = 2 THEN {<<Str(<<99, 10>>)>>} ELSE {<<Str(<<99, 10>>)>>, <<Str(<<100, 10>>)>>}
+StringLineDiffs(lines) ==
+  LET n == Len(lines)
+      Fates(j) == {<<"keep">>, <<"rm">>} \cup {<<"patch", sd>> : sd \in LineDiffs(lines[j])}
+      FateFns == IF n = 0 THEN {<<>>}
+                 ELSE {f \in [1..n -> UNION {Fates(j) : j \in 1..n}] : \A j \in 1..n : f[j] \in Fates(j)}
+  IN {BuildSeq(n, ins, fate, mg) : ins \in [0..n -> InsChoices(SInsU, List)], fate \in FateFns, mg \in BOOLEAN}
+
 (***************************************************************************)
 (* chunks.py                                                               *)
 (***************************************************************************)
@@ -235,7 +255,11 @@ PatchArms(key, a0, p0, a1, p1) ==
              ELSE IF Len(a0) > 0 \/ Len(a1) > 0 THEN <<OneSided(a0, a1)>> ELSE <<>>
       post == IF DiffEq(p0, p1) THEN <<Agreement(p0, p1)>>
               ELSE IF p0[1].op = "patch" /\ p1[1].op = "patch"
-                   THEN At(ItemPath(key), ObjDecisions(p0[1].diff, p1[1].diff))     \* _merge(base[key], ...) -> _merge_dicts
+                   THEN IF Kind = "strings"
+                        \* _merge -> _merge_strings re-entered for one line: the line is not merged character by
+                        \* character but marked as conflicted (a decision on the path of the line)
+                        THEN At(ItemPath(key), <<Conflict(p0[1].diff, p1[1].diff)>>)
+                        ELSE At(ItemPath(key), ObjDecisions(p0[1].diff, p1[1].diff))     \* _merge(base[key], ...) -> _merge_dicts
                    ELSE <<Conflict(p0, p1)>>                                        \* patch of an item the other side removes
   IN pre \o post
 
@@ -278,14 +302,20 @@ Decisions(b, ld, rd) ==
 (* the state machine                                                       *)
 (***************************************************************************)
 IsLists == Kind = "lists"
-IsNested == Kind = "nested"
+IsNested == Kind = "nested" \/ Kind = "strings"      \* the diffs are inputs
+IsStrings == Kind = "strings"
 IsSeq == IsLists \/ IsNested
-Doc(x) == IF IsSeq THEN List(x) ELSE Obj(x)
+\* base is a sequence of items / lines; local and remote are the payload of the patched document
+Doc(x) == IF IsStrings THEN Str(x) ELSE IF IsSeq THEN List(x) ELSE Obj(x)
+DocB == IF IsStrings THEN Str(FlatSeq(base)) ELSE Doc(base)
 DiffOf(x, y) == IF IsLists THEN ListDiff(x, y) ELSE ObjDiff(x, y, KS)
 DecisionsOf(b, ld, rd) == IF IsSeq THEN Decisions(b, ld, rd) ELSE ObjDecisions(ld, rd)
 
 Init == /\ CASE IsLists  -> /\ base \in ListU /\ local \in ListU /\ remote \in ListU
                             /\ ldv = ListDiff(base, local) /\ rdv = ListDiff(base, remote)
+             [] IsStrings -> /\ base \in StrLinesU
+                             /\ ldv \in StringLineDiffs(base) /\ rdv \in StringLineDiffs(base)
+                             /\ local = Patch(Str(FlatSeq(base)), ldv).c /\ remote = Patch(Str(FlatSeq(base)), rdv).c
              [] IsNested -> /\ base \in NestU
                             /\ ldv \in NestedDiffs(base) /\ rdv \in NestedDiffs(base)
                             /\ local = Patch(List(base), ldv).e /\ remote = Patch(List(base), rdv).e
@@ -295,7 +325,7 @@ Init == /\ CASE IsLists  -> /\ base \in ListU /\ local \in ListU /\ remote \in L
 
 Decide == /\ phase = "input"
           /\ LET ds == DecisionsOf(base, ldv, rdv)
-                 r  == ApplyDecisions(Doc(base), ds)
+                 r  == ApplyDecisions(DocB, ds)
              IN D' = ds /\ merged' = (IF r.ok THEN r.v ELSE [t |-> "x"])
           /\ phase' = "merged"
           /\ UNCHANGED <<base, local, remote, ldv, rdv>>
@@ -308,7 +338,7 @@ RD == rdv
 Swapped == DecisionsOf(base, RD, LD)
 
 DiffsCorrect ==
-  /\ WellFormed(Doc(base), LD) /\ Eq(Patch(Doc(base), LD), Doc(local))
+  /\ WellFormed(DocB, LD) /\ Eq(Patch(DocB, LD), Doc(local))
   /\ IsLists => Kept(Len(base), LD) = LLCS(base, local)
 ChunkShapes ==
   IsLists => \A i \in 1..Len(Chunks(Len(base), LD, RD)) :
@@ -317,9 +347,9 @@ ChunkShapes ==
       /\ (t0[2] = "R" /\ t1[2] = "R") => DiffEq(SelectSeq(c.d0, LAMBDA e : e.op # "addrange"),
                                                SelectSeq(c.d1, LAMBDA e : e.op # "addrange"))
 NoErrorArm == Done => \A j \in 1..Len(D) : D[j].action \notin {"ERROR-R/R", "ERROR-unhandled"}
-Applies == Done => merged.t = Doc(base).t
-AllLocal  == Done => AllSideIs(Doc(base), D, "local", Doc(local))
-AllRemote == Done => AllSideIs(Doc(base), D, "remote", Doc(remote))
+Applies == Done => merged.t = DocB.t
+AllLocal  == Done => AllSideIs(DocB, D, "local", Doc(local))
+AllRemote == Done => AllSideIs(DocB, D, "remote", Doc(remote))
 \* nested: the diffs are inputs, so "unchanged" / "the same change" are read off the diffs
 Unchanged(x, d) == IF IsNested THEN Len(d) = 0 ELSE x = base
 SameChange == IF IsNested THEN DiffEq(LD, RD) ELSE local = remote
@@ -331,7 +361,7 @@ Laws == Done =>
 Symmetric == Done =>
   \/ (IsSeq /\ SamePositionInsert(LD, RD))
   \/ /\ HasConf(D) = HasConf(Swapped)
-     /\ (~HasConf(D) => LET r == ApplyDecisions(Doc(base), Swapped) IN r.ok /\ Eq(r.v, merged))
+     /\ (~HasConf(D) => LET r == ApplyDecisions(DocB, Swapped) IN r.ok /\ Eq(r.v, merged))
 \* C06 at design level: the two diffs touch positions that are at least one untouched item apart
 Touched(d) == UNION {IF d[j].op = "removerange" THEN d[j].key..(d[j].key + d[j].length)
                      ELSE IF d[j].op = "patch" THEN d[j].key..(d[j].key + 1) ELSE {d[j].key} : j \in 1..Len(d)}
@@ -340,13 +370,39 @@ Separated(d0, d1) ==
   ELSE {d0[j].key : j \in 1..Len(d0)} \cap {d1[j].key : j \in 1..Len(d1)} = {}      \* different keys
 DisjointClean == (Done /\ Separated(LD, RD)) =>
   /\ ~HasConf(D)
-  /\ Eq(merged, Patch(Doc(base), Canonical(LD \o RD)))
-EmbeddedAllWF == Done => AllEmbeddedWF(Doc(base), D)
+  /\ Eq(merged, Patch(DocB, Canonical(LD \o RD)))
+EmbeddedAllWF == Done => AllEmbeddedWF(DocB, D)
+
+\* strings (C07 / C10 at design level): every line of the merged string is a line of one of the three inputs.
+\* StrProvenance is FALSE for the line based merge as nbdime implements it - TLC's counterexample is the recorded
+\* finding KF-C10-1 / KF-C07-1: a base whose last line lacks its line end, one side appends a line (its diff also adds
+\* the line end, as a change INSIDE the last line), the other side changes that last line differently: the change inside
+\* the line is conflicted (base kept), the appended line is applied, the two are glued.  StrProvenanceModGlue excludes
+\* exactly that shape (an unterminated last line of an input followed by an input line) and holds.
+LinesOfStr(c) == LET ls == SplitLines(c, LineSeps) IN {ls[j] : j \in 1..Len(ls)}
+InputLines == LinesOfStr(FlatSeq(base)) \cup LinesOfStr(local) \cup LinesOfStr(remote)
+Unterminated == {ln \in InputLines : ln[Len(ln)] \notin LineSeps}
+\* a differ never appends after an unterminated last line without also giving that line its end (such a diff glues the
+\* appended text to the last line by itself); the line based notions below are about diffs a differ can produce
+AppendsCleanly(d) ==
+  LET n == Len(base)
+      unterminated == n > 0 /\ base[n][Len(base[n])] \notin LineSeps
+      appends == \E j \in 1..Len(d) : d[j].op = "addrange" /\ d[j].key = n
+      ends == \E j \in 1..Len(d) : d[j].op = "patch" /\ d[j].key = n - 1 /\
+                 \E i \in 1..Len(d[j].diff) : d[j].diff[i].op = "addrange" /\ d[j].diff[i].valuelist.c = <<10>>
+  IN (unterminated /\ appends) => ends
+StrCase == Done /\ IsStrings /\ merged.t = "s" /\ AppendsCleanly(LD) /\ AppendsCleanly(RD)
+StrProvenance == StrCase => LinesOfStr(merged.c) \subseteq InputLines
+StrProvenanceModGlue == StrCase =>
+  \A ln \in LinesOfStr(merged.c) :
+     \/ ln \in InputLines
+     \/ \E u \in Unterminated, t \in InputLines : ln = u \o t
+     \/ \E u \in Unterminated, v \in Unterminated, t \in InputLines : ln = u \o v \o t
 
 DecJson(dd) == [common_path |-> dd.common_path, action |-> dd.action, conflict |-> dd.conflict,
                 local_diff |-> dd.local_diff, local_null |-> dd.local_null,
                 remote_diff |-> dd.remote_diff, remote_null |-> dd.remote_null]
 Emit == (EMIT /\ Done) =>
-  PrintT("MERGE " \o ToJson([base |-> Doc(base), local |-> Doc(local), remote |-> Doc(remote), ld |-> LD, rd |-> RD,
+  PrintT("MERGE " \o ToJson([base |-> DocB, local |-> Doc(local), remote |-> Doc(remote), ld |-> LD, rd |-> RD,
                               D |-> [j \in 1..Len(D) |-> DecJson(D[j])], merged |-> merged]))
 =============================================================================
